@@ -201,6 +201,87 @@ func (m *Matcher) eqTerms(a, b *Term) (bool, string) {
 		if ok, why := atomsEqual(atA, atB); !ok {
 			return false, why
 		}
+		// branch-directed re-evaluation: random floats never reach the rarely-taken side of a float comparison
+		// (|pk| > 2^52, t <= 2^-53, qk == 0, ax < -MAXLOG); each compared quantity is moved across its boundary in turn
+		// (as a free variable, on both sides alike) and the values must still agree
+		if os.Getenv("VERIF_NO_BRANCHDIR") == "" {
+			done := 0
+			var seenKeys []float64
+			for _, at := range atA {
+				if !at.HasOps || (at.Kind != "f" && at.Kind != "feq") || (at.AConst && at.BConst) || done >= 6 {
+					continue
+				}
+				dup := false
+				for _, k := range seenKeys {
+					if k == at.A*31+at.B {
+						dup = true
+					}
+				}
+				if dup {
+					continue
+				}
+				seenKeys = append(seenKeys, at.A*31+at.B)
+				// the operand that moves is one that is a computed quantity on BOTH sides (a boundary that is a literal on
+				// one side and a table entry on the other stays put); with two computed operands, the larger in magnitude
+				aConst, bConst := at.AConst, at.BConst
+				for _, o := range atB {
+					if !o.HasOps || o.Kind != at.Kind {
+						continue
+					}
+					switch {
+					case o.A == at.A && o.B == at.B:
+						aConst, bConst = aConst || o.AConst, bConst || o.BConst
+					case o.A == at.B && o.B == at.A:
+						aConst, bConst = aConst || o.BConst, bConst || o.AConst
+					}
+				}
+				if aConst && bConst {
+					continue
+				}
+				mv, fixed := at.A, at.B
+				switch {
+				case aConst:
+					mv, fixed = at.B, at.A
+				case bConst:
+				case math.Abs(at.B) > math.Abs(at.A):
+					mv, fixed = at.B, at.A
+				}
+				if math.IsNaN(mv) || math.IsNaN(fixed) || math.IsInf(mv, 0) || math.IsInf(fixed, 0) {
+					continue
+				}
+				var to float64
+				eps := math.Abs(fixed)*1e-3 + 1e-300
+				switch {
+				case at.Kind == "feq":
+					if mv == fixed {
+						to = fixed + eps
+					} else {
+						to = fixed
+					}
+				case mv < fixed:
+					to = fixed + eps
+				case mv > fixed:
+					to = fixed - eps
+				default:
+					to = fixed + eps
+				}
+				done++
+				m.Env.ValOver = &valOver{From: mv, To: to}
+				m.Env.memo = map[*Term]Val{}
+				m.Env.Atoms = nil
+				exactFloat = m.Exact
+				va2 := m.Env.Eval(a)
+				m.Env.memo = map[*Term]Val{}
+				vb2 := m.Env.Eval(b)
+				exactFloat = false
+				m.Env.ValOver = nil
+				m.Env.memo = map[*Term]Val{}
+				m.Env.Atoms = nil
+				if !valsClose(va2, vb2) {
+					return false, fmt.Sprintf("values differ at sample point %d when the comparison of %.6g with %.6g goes the other way: %v vs %v", k, mv, fixed, va2, vb2)
+				}
+			}
+		}
 	}
 	if valid == 0 {
 		return false, "no admissible sample point (preconditions exclude all)"
@@ -262,6 +343,53 @@ func (m *Matcher) Run() bool {
 	return len(m.Fails) == 0
 }
 
+// mergeReturns: the return sites of one region as a single return: taken when any of them is, yielding the values of
+// the one taken (the sites end their paths, so at most one is). nil when a result type has no neutral filler.
+func (m *Matcher) mergeReturns(rets []*Event) *Event {
+	if len(rets) == 0 {
+		return nil
+	}
+	S := m.S
+	n := len(rets[0].Rets)
+	g := S.False
+	for _, r := range rets {
+		if len(r.Rets) != n {
+			return nil
+		}
+		g = S.Or(g, r.Guard)
+	}
+	vals := make([]*Term, n)
+	for k := 0; k < n; k++ {
+		var d *Term
+		switch rets[0].Rets[k].Ty {
+		case TInt:
+			d = S.Int(0)
+		case TFloat:
+			d = S.Float(0)
+		case TBool:
+			d = S.False
+		case TRef:
+			d = S.Nil
+		case TString:
+			d = S.Str("")
+		default:
+			return nil
+		}
+		for i := len(rets) - 1; i >= 0; i-- {
+			if rets[i].Rets[k].Ty != rets[0].Rets[k].Ty {
+				return nil
+			}
+			d = S.Op("ite", d.Ty, rets[i].Guard, rets[i].Rets[k], d)
+		}
+		vals[k] = d
+	}
+	cp := *rets[0]
+	cp.Guard = S.Canon(g)
+	cp.Rets = vals
+	cp.Virtual = true
+	return &cp
+}
+
 func (m *Matcher) posA(e *Event) string { return m.PA.Pos(e.Pos) }
 
 func isPanicItem(it interface{}) (*Event, bool) {
@@ -290,13 +418,12 @@ func (m *Matcher) matchRegion(ra, rb *Region, ctx string) {
 		if len(m.Fails) > 0 {
 			return
 		}
-		if len(retsA) != len(retsB) {
-			m.fail("%s: %d return sites vs %d in the reference", ctx, len(retsA), len(retsB))
-			return
-		}
+		// pair the return sites by path condition
+		pairs := make([]int, len(retsA))
 		used := make([]bool, len(retsB))
+		complete := len(retsA) == len(retsB)
 		for u, a := range retsA {
-			pick := -1
+			pairs[u] = -1
 			for v, b := range retsB {
 				if used[v] {
 					continue
@@ -305,10 +432,30 @@ func (m *Matcher) matchRegion(ra, rb *Region, ctx string) {
 				ok, _ := m.eqTerms(a.Guard, b.Guard)
 				m.quiet--
 				if ok {
-					pick = v
+					pairs[u] = v
+					used[v] = true
 					break
 				}
 			}
+			if pairs[u] < 0 {
+				complete = false
+			}
+		}
+		if !complete {
+			// the two sides cut the same outcome into different return statements (one `return sel(c, x, y)` against
+			// `if c { return x }; return y`, a helper's two returns merged by inlining): compare the outcome as one
+			// function of the path condition
+			if sa, sb := m.mergeReturns(retsA), m.mergeReturns(retsB); sa != nil && sb != nil {
+				m.matchEvent(sa, sb, ctx+"/ret*")
+				return
+			}
+			if len(retsA) != len(retsB) {
+				m.fail("%s: %d return sites vs %d in the reference", ctx, len(retsA), len(retsB))
+				return
+			}
+		}
+		for u, a := range retsA {
+			pick := pairs[u]
 			if pick < 0 {
 				// report against the positional partner
 				for v := range retsB {
@@ -317,8 +464,8 @@ func (m *Matcher) matchRegion(ra, rb *Region, ctx string) {
 						break
 					}
 				}
+				used[pick] = true
 			}
-			used[pick] = true
 			m.matchEvent(a, retsB[pick], fmt.Sprintf("%s/ret%d", ctx, u))
 		}
 	}()
